@@ -48,6 +48,16 @@ impl Guard {
 }
 thread_local! {
     pub static GUARD: Guard = Guard::new();
+    /// location of the last panic on this thread (the shared hook of `vpc` is racy across threads)
+    pub static LAST_PANIC: std::cell::RefCell<String> = const { std::cell::RefCell::new(String::new()) };
+}
+pub fn install_panic_hook() {
+    std::panic::set_hook(Box::new(|info| {
+        if let Some(l) = info.location() {
+            let s = format!("{}:{}", l.file(), l.line());
+            LAST_PANIC.with(|p| *p.borrow_mut() = s);
+        }
+    }));
 }
 
 // ------------------------------------------------------------------------------------------------
@@ -201,6 +211,8 @@ pub struct Ctx<'a> {
     pub trace: bool,
     pub skip: &'a std::collections::BTreeSet<String>,
     pub ops: u64,
+    /// also call the O(size) conversions (Debug/Display, to_model, to_boxed, ...)
+    pub deep: bool,
 }
 impl Ctx<'_> {
     /// Announce the next operation. false = operation is on the skip list (a crash class already
@@ -258,7 +270,7 @@ impl Ctx<'_> {
     }
     #[cold]
     pub fn panicked(&mut self, name: &'static str, msg: String) {
-        let loc = vpc::last_panic_location();
+        let loc = LAST_PANIC.with(|l| l.borrow().clone());
         let loc = loc.rsplit_once("/repo/").map(|x| x.1.to_string()).unwrap_or(loc);
         // worktree copies of the subject live elsewhere; keep the path from "crates/"
         let loc = loc.find("crates/").map(|i| loc[i..].to_string()).unwrap_or(loc);
@@ -282,10 +294,19 @@ macro_rules! acc {
     ($c:expr, $n:literal, $e:expr) => {
         if $c.at($n) {
             if let Err(p) = vpc::catch(|| {
-                std::hint::black_box($e);
+                let _ = std::hint::black_box($e);
             }) {
                 $c.panicked($n, p);
             }
+        }
+    };
+}
+/// an accessor that allocates / formats (only in deep sweeps)
+#[macro_export]
+macro_rules! accd {
+    ($c:expr, $n:literal, $e:expr) => {
+        if $c.deep {
+            $crate::acc!($c, $n, $e);
         }
     };
 }
@@ -340,7 +361,7 @@ macro_rules! mutx {
     ($c:expr, $n:literal, $e:expr) => {{
         if $c.at($n) {
             if let Err(p) = vpc::catch(|| {
-                $e;
+                let _ = $e;
             }) {
                 $c.panicked($n, p);
             }
